@@ -632,7 +632,7 @@ class vacancyThermoKinetics(collections.namedtuple('vacancyThermoKinetics',
                np.allclose(self.preT, other.preT) and np.allclose(self.betaeneT, other.betaeneT)
 
     def __ne__(self, other):
-        return not __eq__(other)
+        return not self.__eq__(other)
 
     def __hash__(self):
         return hash(self.pre.data.tobytes() + self.betaene.data.tobytes() +
